@@ -11,6 +11,8 @@ META = {
 def run(ctx):
     import trancommon
     trancommon.exhaustive(ctx, "C02")
-    n = 6 if ctx.thorough() else 2
-    dbcommon.run_db(ctx, "tran", n, "C02")
+    # (a) op-level interleavings of 2-3 colliding transactions driven from one goroutine
+    dbcommon.run_db(ctx, "tranpairs", 12 if ctx.thorough() else 3, "C02p")
+    # (b) free-running concurrent clients against the real checker/merger/persist goroutines
+    dbcommon.run_db(ctx, "tran", 6 if ctx.thorough() else 1, "C02c")
     ctx.assumptions += dbcommon.ASSUME
